@@ -69,6 +69,9 @@ DropOptSemi(toks, i) ==
   IF i > Len(toks) THEN <<>>
   ELSE IF Cls(toks[i]) = "semi" /\ (i = Len(toks) \/ Cls(toks[i + 1]) \in {"}", "semi"}) THEN DropOptSemi(toks, i + 1)
   ELSE <<toks[i]>> \o DropOptSemi(toks, i + 1)
-Canon(toks) == DropOptSemi(Keep(toks), 1)
+\* the charset declaration is formatting too: @charset "UTF-8"; (expanded) stands for the BOM (compressed)
+StripCharset(toks) == IF Len(toks) >= 3 /\ Cls(toks[1]) = "at" /\ Txt(toks[1]) = "@charset" /\ Cls(toks[2]) = "str" /\ Cls(toks[3]) = "semi"
+                      THEN SubSeq(toks, 4, Len(toks)) ELSE toks
+Canon(toks) == DropOptSemi(StripCharset(Keep(toks)), 1)
 StyleEquivalent(a, b) == Canon(a) = Canon(b)
 =============================================================================
